@@ -122,4 +122,81 @@ CHECKS["C03"] = {
     "design_ref": "DESIGN.md section 3 (C03)",
 }
 
+CHECKS["C01"] = {
+    "text": "Theorems (Props/C01.v, closed under the global context) prove for EVERY respondent-level survey "
+            "(Spec/Survey.v: categorical / multiple-response answers with per-item selected|other|missing, rational "
+            "weights), every position of missing categories, 2-D cubes and every partition of 3-D cubes (categorical or "
+            "MR table variable) and all four categorical/MR class pairs that the count the code's class extracts from "
+            "the survey's tensor after Cube._valid_idxs and _slice_idx_expr equals the weighted number of respondents "
+            "in the table element who belong to the row AND the column element (MR: selected the item); that with unit "
+            "weights it is the head count; the 1-D strand twins; that the output elements are exactly the non-missing "
+            "payload positions in payload order and a respondent answering a missing category belongs to no element; "
+            "that reshaping the flat row-major payload of any shape reads the right cell, a numeric measure reports "
+            "exactly the payload cell ({'?':code} = NaN) of the selected plane; and the count-measure cascade. "
+            "Tied to the code by running Model/CubeCounts.v in Coq on the JSON payload and comparing with "
+            "_Slice/_Strand counts, unweighted_counts, means/sums/stddev/medians and Cube.counts/unweighted_counts "
+            "for all nine Cat/Mr/Arr class pairs (permuted dimension orders), 1-D/2-D/3-D, CA-as-0th, plus a direct "
+            "respondent-level oracle and Coq-tabulate vs generator-payload agreement.",
+    "note": "Trusted: Coq kernel + vm_compute; hand-written Model/CubeCounts.v tied by correspondence only (sampled "
+            "inputs, 1e-9 tolerance; no source translator yet). PARTIAL: class pairs with a categorical-array dimension "
+            "have no survey-level theorem (model + correspondence + survey oracle only); numeric arrays and the 0-D nub "
+            "are not generated; the step from the flat payload to the sliced tensor is proved for the layout "
+            "(of_flat/flatten) and checked by computation on the examples and on every case, not as one composed theorem.",
+    "design_ref": "DESIGN.md section 3 (C01)",
+}
+
+CHECKS["C02"] = {
+    "text": "Theorems (Props/C02.v, closed under the global context) prove for every survey, 2-D and 3-D, all four "
+            "categorical/MR class pairs: row base = weighted members of the row element eligible for the column element, "
+            "column base = the mirror image, table base = eligible on both, where eligible for an MR item means not "
+            "missing on THAT item (per-item missingness) and for a categorical dimension any valid category; unit "
+            "weights give head counts; a count never exceeds its base; for all NINE class pairs the 1-D margins and the "
+            "scalar table base are the collapsed 2-D bases, exist iff the opposing dimension is categorical (scalar iff "
+            "both), and the public 2-D fall-backs of cubepart.py are exactly the undefined cases; survey-level value of "
+            "the margins and of the scalar table base; strand bases; the reported range ends are the least and greatest "
+            "base cell; the mask is true exactly where base < size. Tied to the code by running the model in Coq on the "
+            "JSON payload against row/column/table_(un)weighted_bases, rows/columns_margin/base, table_margin/base, "
+            "table_base/margin_range, min_base_size_mask and the strand twins, plus the respondent-level oracle, "
+            "including sum-subtotal rows/columns of the six base matrices as merged categories.",
+    "note": "Trusted: Coq kernel + vm_compute; hand-written Model/CubeCounts.v tied by correspondence only. PARTIAL: "
+            "array class pairs carry the code's degenerate definitions without survey-level theorem; subtotal blocks of "
+            "the base measures are compared with the survey oracle (addend positions read from the private "
+            "Dimension.subtotals) but not modelled in Coq; difference subtotals are left to C04.",
+    "design_ref": "DESIGN.md section 3 (C02)",
+}
+
+CHECKS["C16"] = {
+    "text": "Theorems (Props/C16.v, closed under the global context) prove for every survey and all four "
+            "categorical/MR pairings that each of the four _*UnconditionalCubeCounts.baseline variants, applied to the "
+            "survey's tensor INCLUDING missing elements and the full MR selection axis, is w(row element)/w(eligible for "
+            "it) with no condition on the column answer, and that column_index = 100 * (count/column base) / that share, "
+            "NaN where a share is undefined; 3-D under the hypothesis that the table element's rank among the valid "
+            "elements is its raw offset, and C16_rank_vs_offset_refuted exhibits a survey where the code's index is inf "
+            "and the specified one 100 without it. Tied to the code by running the model in Coq on the JSON payload "
+            "against _Slice.column_index on surveys with heavy, row-skewed column missingness (2-D/3-D, weighted or not), "
+            "a respondent-level oracle, and a NaN check of inserted subtotals.",
+    "note": "Trusted: Coq kernel + vm_compute; hand-written model tied by correspondence only. OPEN FINDING "
+            "C16-3d-baseline-wrong-table (known_findings.d): 3-D cube with a missing table category before a valid one "
+            "takes the baseline from the wrong table; reported as KNOWN-FINDING, model kept faithful to the code. "
+            "Assumes MR items are never flagged missing (the code's 2-D baselines are not filtered by item validity) "
+            "and every respondent's column answer is inside the payload; array dimensions are outside the property.",
+    "design_ref": "DESIGN.md section 3 (C16), section 4 #7",
+}
+
+CHECKS["C11"] = {
+    "text": "Theorems (Props/C11.v, closed under the global context): for EVERY finite list of weighted respondents "
+            "with indicator +1/0/-1 the code's three-term formula on (proportion, base, positive count, negative "
+            "count) equals the weighted variance of that indicator around its mean, the proportion is that mean, "
+            "it reduces to p(1-p) without subtrahends and to (Np+Nn)/Nt - p^2 in general, is non-negative for "
+            "non-negative weights and NaN when the base is zero or the proportion undefined; every cell of the four "
+            "blocks uses its own proportion/base/positive/negative terms (sums over addends / subtrahends); "
+            "std-err^2 = variance/base, MoE^2 = 1.959964^2 std-err^2. Model tied to the code on the implementation's "
+            "own proportion/base/count blocks (slices: 3 directions x 4 blocks; strands), radicals through squares.",
+    "note": "Trusted: Coq kernel + vm_compute; hand-written Model/Variance.v tied by correspondence only; inputs of each "
+            "step are the implementation's reported values; np.sqrt not modelled (squares + non-negativity compared); "
+            "for overlapping addend/subtrahend ids the indicator of a member of both is not fixed by the property: "
+            "covered by correspondence only.",
+    "design_ref": "DESIGN.md section 3 (C11)",
+}
+
 NOT_APPLICABLE = {}
